@@ -604,11 +604,15 @@ func (db *DB) MaxLTX() (minTXID, maxTXID ltx.TXID, err error) {
 
 // FileInfo returns the cached file stats for the database file when it was initialized.
 func (db *DB) FileInfo() os.FileInfo {
+	db.mu.RLock()
+	defer db.mu.RUnlock()
 	return db.fileInfo
 }
 
 // DirInfo returns the cached file stats for the parent directory of the database file when it was initialized.
 func (db *DB) DirInfo() os.FileInfo {
+	db.mu.RLock()
+	defer db.mu.RUnlock()
 	return db.dirInfo
 }
 
@@ -801,9 +805,17 @@ func (db *DB) Open() (err error) {
 	}
 
 	// Set the compactor client once before starting any goroutines.
-	db.compactor.VerifyCompaction = db.VerifyCompaction
-	db.compactor.RetentionEnabled = db.RetentionEnabled
-	db.compactor.client = db.Replica.Client
+	// Only assign on change: after a Close()/Open() cycle the compaction and
+	// retention monitors of the Store may already be reading these fields.
+	if db.compactor.VerifyCompaction != db.VerifyCompaction {
+		db.compactor.VerifyCompaction = db.VerifyCompaction
+	}
+	if db.compactor.RetentionEnabled != db.RetentionEnabled {
+		db.compactor.RetentionEnabled = db.RetentionEnabled
+	}
+	if db.compactor.client != db.Replica.Client {
+		db.compactor.client = db.Replica.Client
+	}
 
 	// Start monitoring SQLite database in a separate goroutine.
 	if db.MonitorInterval > 0 {
